@@ -277,6 +277,29 @@ type PushContext struct {
 	InitDone        atomic.Bool
 	initializeMutex sync.Mutex
 	ambientIndex    AmbientIndexes
+
+	// seq is the position of this push context in the order in which push contexts became the global push
+	// context, see Environment.SetPushContext. It is written before the push context is handed out.
+	seq uint64
+}
+
+// NewerThan reports whether ps became the global push context after other did. A nil push context is older
+// than any other.
+func (ps *PushContext) NewerThan(other *PushContext) bool {
+	if ps == nil {
+		return false
+	}
+	return other == nil || ps.seq > other.seq
+}
+
+// newestPush returns the more recent of the two push contexts. Requests are normally merged in the order
+// they were created, so the later one wins a tie; but a request is built (reading the global push context)
+// and enqueued in two steps, so a newer push context may well have been enqueued in between.
+func newestPush(earlier, later *PushContext) *PushContext {
+	if earlier.NewerThan(later) {
+		return earlier
+	}
+	return later
 }
 
 type consolidatedDestRules struct {
@@ -515,10 +538,8 @@ func (pr *PushRequest) Merge(other *PushRequest) *PushRequest {
 	// If either is forced we need a forced push
 	pr.Forced = pr.Forced || other.Forced
 
-	// The other push context is presumed to be later and more up to date
-	if other.Push != nil {
-		pr.Push = other.Push
-	}
+	// Never go back to an older push context
+	pr.Push = newestPush(pr.Push, other.Push)
 
 	if pr.ConfigsUpdated == nil {
 		pr.ConfigsUpdated = other.ConfigsUpdated
@@ -565,8 +586,8 @@ func (pr *PushRequest) CopyMerge(other *PushRequest) *PushRequest {
 		// If either is forced we need a forced push
 		Forced: pr.Forced || other.Forced,
 
-		// The other push context is presumed to be later and more up to date
-		Push: other.Push,
+		// Never go back to an older push context
+		Push: newestPush(pr.Push, other.Push),
 
 		// Merge the two reasons. Note that we shouldn't deduplicate here, or we would under count
 		Reason: reason,
